@@ -193,9 +193,19 @@ func norm(v interface{}) interface{} {
 
 func init() { commands["replay-experiment"] = replayExperiment }
 
+func okScript(runs, gens int) [][]string {
+	out := make([][]string, runs)
+	for i := range out {
+		for j := 0; j < gens; j++ {
+			out[i] = append(out[i], "ok")
+		}
+	}
+	return out
+}
+
 // compare judges one real run against one behaviour of the specification (evaluator log, observer log, recorded trials,
 // final populations, returned error); "" = the behaviour explains the run.
-func (c *expCase) compare(ev *scriptedEvaluator, obs *recordingObserver, exp *experiment.Experiment, runErr error) (bad string) {
+func (c *expCase) compare(ev *scriptedEvaluator, obs *recordingObserver, exp *experiment.Experiment, runErr error, otherLife bool) (bad string) {
 	gotErr := ""
 	switch {
 	case runErr == nil:
@@ -219,7 +229,10 @@ func (c *expCase) compare(ev *scriptedEvaluator, obs *recordingObserver, exp *ex
 	if len(exp.Trials) < len(c.Trials) {
 		bad += fmt.Sprintf("%d trials recorded, specification says %d; ", len(exp.Trials), len(c.Trials))
 	} else {
-		if runErr == nil && len(exp.Trials) != c.Runs {
+		// (an Experiment value that came with a Trials slice of another length keeps that length - Execute allocates the slice
+		// only when it is nil, as executor.go's own caller pre-sizes it; what lies beyond the configured runs is then left over
+		// from the caller, not recorded by this run, and is not judged)
+		if runErr == nil && len(exp.Trials) != c.Runs && !otherLife {
 			bad += fmt.Sprintf("%d trials recorded for %d configured runs; ", len(exp.Trials), c.Runs)
 		}
 		for i, want := range c.Trials {
@@ -301,6 +314,25 @@ func replayExperiment(args []string) int {
 			exp := experiment.Experiment{Id: 1}
 			rand.Seed(envSeed() + int64(rep.Cases))
 			ref, _ := genetics.NewPopulation(start, opts)
+			// ... nor what it held before: for every other input the Experiment value has had an EARLIER LIFE with another
+			// configuration (two more runs of one unsolved generation each, or - third variant - a Trials slice pre-sized by the
+			// caller); "exactly the configured number of trials" is about the options of THIS call.
+			otherLife := false
+			switch (rep.Cases + len(string(executor))) % 3 {
+			case 1:
+				otherLife = true
+				pre := baseOptions(8)
+				pre.NumRuns, pre.NumGenerations, pre.EpochExecutorType = c.Runs+2, 1, executor
+				pctx, pcancel := context.WithCancel(context.Background())
+				_ = guard(func() {
+					_ = exp.Execute(neat.NewContext(pctx, pre), start, &scriptedEvaluator{c: &expCase{Runs: c.Runs + 2, Gens: 1,
+						Script: okScript(c.Runs+2, 1)}, cancel: pcancel, pops: map[*genetics.Population]*popTrack{}}, nil)
+				})
+				pcancel()
+			case 2:
+				otherLife = true
+				exp.Trials = make(experiment.Trials, c.Runs+3)
+			}
 			// Execute is a function of its arguments: what the Experiment value holds from an earlier Execute does not matter.
 			// Every behaviour is therefore run twice on the SAME Experiment value and judged against the specification both times.
 			for pass := 1; pass <= 2; pass++ {
@@ -325,7 +357,7 @@ func replayExperiment(args []string) int {
 				first := ""
 				explained := false
 				for k, v := range g.variants {
-					d := v.compare(ev, obs, &exp, runErr)
+					d := v.compare(ev, obs, &exp, runErr, otherLife)
 					if k == 0 {
 						first = d
 					}
